@@ -180,11 +180,17 @@ def registry_names_exact(ctx, report, RULE='C10.R10'):
         def extra(node, ev):
             d = ast.unparse(node.func)
             if d.startswith('VectorParam') or d.endswith('.__init__'):
-                return Obj(**{k.arg: ev.ev(k.value) for k in node.keywords if k.arg})
+                kw = {k.arg: ev.ev(k.value) for k in node.keywords if k.arg}
+                for k in node.keywords:
+                    if k.arg is None:       # ``VectorParamString(**arguments)``
+                        more = ev.ev(k.value)
+                        if isinstance(more, dict):
+                            kw.update({a: b for a, b in more.items() if isinstance(a, str)})
+                return Obj(**kw)
             return NotImplemented
         hook = class_call_hook(c, extra, model)
         try:
-            prm = Evaluator({'cls': 'cls'}, hook, None).function(gp.node)
+            prm = Evaluator({'cls': 'cls'}, hook, hook.name_hook_for(gp.module, None)).function(gp.node)
         except (Unsupported, Raised):
             continue
         item_class = getattr(prm, 'item_class', None)
@@ -198,7 +204,7 @@ def registry_names_exact(ctx, report, RULE='C10.R10'):
         # a converter function: which registry does it serve?
         gic = c.resolve('get_item_class')
         try:
-            registry = Evaluator({'cls': 'cls'}, hook, None).function(gic.node) if gic is not None and not gic.abstract else None
+            registry = Evaluator({'cls': 'cls'}, hook, hook.name_hook_for(gic.module, None)).function(gic.node) if gic is not None and not gic.abstract else None
         except (Unsupported, Raised):
             registry = None
         if not isinstance(registry, ClassRef) or not getattr(registry.info, 'enum_members', None):
